@@ -34,6 +34,10 @@ func buildFloat64(exponent int, significandPlusOne float64) float64 {
 		// fraction bits are those of 1: that is the first value of the next binade, not of this one.
 		exponent++
 		significandPlusOne /= 2
+	} else if significandPlusOne < 1 {
+		// Rounding errors (e.g., in the cubic root formula) can bring the significand slightly below 1, whose
+		// fraction bits are all ones: that would nearly double the result instead of leaving it at the bottom of the binade.
+		significandPlusOne = 1
 	}
 	if exponent > exponentBias {
 		// Beyond the largest finite binade: saturate instead of letting the exponent bits wrap around.
